@@ -513,10 +513,12 @@ def _check_pp(R, RA, g, gs, b, f, pp, pdesc, unit, role, depth, pnames):
                     if cb is None or cb.id == b.id:
                         continue
                     for ai, a in enumerate(t["args"]):
-                        if a["k"] in ("copy", "move") and strip(g.d.expr(a)) == _pexpr(pp):
+                        ea_ = strip(g.d.expr(a)) if a["k"] in ("copy", "move") else None
+                        whole_ = ea_ is not None and isinstance(pp[0], int) and pp[1] and ea_ == ("param", pp[0])     # the whole tuple is handed over
+                        if ea_ is not None and (ea_ == _pexpr(pp) or whole_):
                             sub = Result("R-GUARD")
                             subA = Result("R-ARITH")
-                            check_body(sub, cb, f, [(("#%d" % ai,), unit, role)], subA, depth + 1) if depth < 2 else None
+                            check_body(sub, cb, f, [(("#%d" % ai,) + (tuple(pp[1]) if whole_ else ()), unit, role)], subA, depth + 1) if depth < 2 else None
                             if sub.instances and all(i["ok"] for i in sub.instances) and not sub.findings:
                                 via = "guard in callee %s: %s" % (cb.ident, sub.instances[0]["what"])
                                 found = (bi, "Lt", "callee " + cb.ident, t["target"], "in " + cb.ident)
